@@ -77,6 +77,10 @@ def failure_tags(unit, rec):
         return sorted(set((f.safety + f.tags) if f else []))
     if kind == 'postcondition' and f:
         return sorted(set(f.tags))
+    # a failing proof step (assert, or the precondition of a lemma call) inside a woven function: the step serves
+    # the function's clauses, so it carries the function's property tags as well as its safety tags
+    if f and (kind == 'assertion' or (kind == 'precondition' and 'lemma_' in (rec.get('rendered') or ''))):
+        return sorted(set(f.tags + f.safety))
     return list(f.safety) if f else []
 
 
